@@ -1,6 +1,7 @@
 package verifh
 
 import (
+	"bytes"
 	"bufio"
 	"encoding/json"
 	"fmt"
@@ -360,6 +361,11 @@ var c20Main = newPart("C20", "calls",
 func drawC20Call(t *rapid.T) c20Call {
 	c := c20Call{Fn: rapid.SampledFrom([]string{"generateHOTP", "generateTOTP", "validateHOTP", "validateHOTP", "validateTOTP", "validateTOTP", "generateOTPURL"}).Draw(t, "fn"), BadPos: -1}
 	c.Key = rapid.SliceOfN(rapid.Byte(), 1, 40).Draw(t, "key")
+	if rapid.IntRange(0, 2).Draw(t, "keyBoundary") == 0 {
+		// key lengths around the HMAC block sizes (a separate derivation / key preparation in the binding must agree there too)
+		c.Key = rapid.SliceOfN(rapid.Byte(), 1, 1).Draw(t, "keyFill")
+		c.Key = bytes.Repeat(c.Key, rapid.SampledFrom([]int{19, 20, 21, 32, 63, 64, 65, 127, 128, 129, 200}).Draw(t, "keyLen"))
+	}
 	c.Sp = gen.DrawSpelling(t)
 	c.Dig = rapid.SampledFrom([]string{"6", "8", "9", "10", "6", "8", "10", "7", "06", "six", "11", " 6"}).Draw(t, "dig")
 	c.Alg = rapid.SampledFrom([]string{"SHA1", "SHA256", "SHA512", "SHA1", "SHA256", "SHA512", "sha1", "MD5", "SHA-512"}).Draw(t, "alg")
@@ -385,7 +391,7 @@ func drawC20Call(t *rapid.T) c20Call {
 	}
 	if strings.HasPrefix(c.Fn, "validate") {
 		c.Dist = rapid.IntRange(-c.Skew-2, c.Skew+2).Draw(t, "dist")
-		c.Mut = rapid.SampledFrom([]int{0, 0, 0, 1, 2, 3}).Draw(t, "mut")
+		c.Mut = rapid.SampledFrom([]int{0, 0, 0, 0, 1, 2, 3, 4, 5, 6, 7}).Draw(t, "mut")
 		centre := c.N
 		if c.Fn == "validateTOTP" {
 			if rapid.IntRange(0, 3).Draw(t, "nearZero") == 0 && c.Skew > 0 {
